@@ -219,7 +219,8 @@ class ControlledOperation(raw_types.Operation):
         tensor = qis.eye_tensor(qid_shape, dtype=sub_matrix.dtype)
         sub_tensor = sub_matrix.reshape(qid_shape[len(self.controls) :] * 2)
         for control_vals in self.control_values.expand():
-            active = (*(v for v in control_vals), *(slice(None),) * sub_n) * 2
+            # int(): a bool control value (e.g. False) would be taken by numpy as a mask, not an index.
+            active = (*(int(v) for v in control_vals), *(slice(None),) * sub_n) * 2
             tensor[active] = sub_tensor  # type: ignore[index]
         return tensor.reshape((np.prod(qid_shape, dtype=np.int64).item(),) * 2)
 
